@@ -17,11 +17,13 @@
 (*   nl  u-umlaut@example.invalid (non-ASCII local part)                   *)
 (*   idn u3@e-acute.invalid      (IDN domain, U-label)                     *)
 (*   idn_ace u3@xn--9ca.invalid  (what idn becomes for a next hop without *)
-(*                                SMTPUTF8; never handed to AddRcpt)       *)
+(*                                SMTPUTF8; ALSO a spelling a client may   *)
+(*                                supply itself: two recipients that       *)
+(*                                differ as given and coincide on the wire)*)
 (***************************************************************************)
 EXTENDS Naturals, Sequences, FiniteSets
 
-Given == {"a1", "a2", "cv", "nl", "idn"}        \* addresses a client may supply
+Given == {"a1", "a2", "cv", "nl", "idn", "idn_ace"}   \* addresses a client may supply
 Doms  == {"D1", "D2"}
 Dom(r) == IF r \in {"idn", "idn_ace"} THEN "D2" ELSE "D1"
 (* wire form for a next hop without SMTPUTF8 *)
@@ -39,11 +41,16 @@ Count(s, x) == Cardinality({i \in 1..Len(s) : s[i] = x})
 (*                       connection in mid-DATA                                        *)
 (*         late : 0..3   list position whose RCPT reply arrives only after             *)
 (*                       command_timeout (0 = none)                                    *)
+(*         quar : 0..3   the message is put in quarantine (MsgMetadata.Quarantine,     *)
+(*                       a body-stage check) right after the AddRcpt call of this      *)
+(*                       list position (0 = never; = length of the list: between the   *)
+(*                       last AddRcpt and the body step)                               *)
 (*         drop : 0..3]  LMTP: the next hop answers for the first `drop` accepted *)
 (*                       recipients after the final dot, then the connection      *)
 (*                       breaks (drop >= number of accepted recipients: no break) *)
 (* the results the next hop gave for the accepted recipient r (one per time it    *)
 (* was accepted; "lost" = no answer arrived, any failure is a truthful report)    *)
+Quar(plan) == IF "quar" \in DOMAIN plan THEN plan.quar ELSE 0   \* replay files older than the field
 TruthSet(kind, plan, acc, r) ==
   (IF kind = "lmtp"
    THEN IF plan.data["D1"] # "ok" THEN {plan.data["D1"]}
@@ -52,6 +59,8 @@ TruthSet(kind, plan, acc, r) ==
   \* a transport fault (body source fails, connection reset in mid-DATA, a reply overdue) may
   \* turn any result into a failure
   \cup (IF plan.src # "ok" \/ plan.late > 0 THEN {"lost"} ELSE {})
+  \* a target may refuse to pass on a quarantined message: its own refusal is a truthful failure
+  \cup (IF Quar(plan) > 0 THEN {"lost"} ELSE {})
 Truthful(v, t) == IF t = "lost" THEN v # "ok" ELSE v = t
 
 ObsInit == [acc |-> <<>>, plan |-> <<>>, n |-> 0, viol |-> {}]
